@@ -28,7 +28,7 @@ PID = 'C07'
 
 META = {
     'technique': 'dispatch-table reconstruction + agreement of the shape tokens (block size, bit depth) and of the resolved parameter-type lists between each pointer, its C reference and every installed kernel; def-use contradiction lint over intrinsic calls (signed-saturating producer, unsigned consumer) with a compiled positive witness; lane-width typestate (a vector that certainly holds full 64-bit products, by reaching definitions, accumulated with an 8/16/32-bit lane addition) with its own compiled positive witness; 16-bit lane capacity bound of the AVX2 variance family (shared with C06)',
-    'text': 'Decides only the pairing that bit-exactness presupposes: each of the ~1600 installed kernels is an implementation of the operation (block size, bit depth, signature) of the slot it is installed in, and the slot\'s fallback is that operation\'s C reference. One arithmetic contradiction is decided kernel by kernel (a signed-saturating 8/16-bit sum consumed as unsigned). Beyond that, the arithmetic equality of kernel and reference over all arguments is NOT decided (that needs execution or symbolic equivalence, a different technique family). Three arithmetic hazards specific to SIMD are decided for every kernel: signed-saturating sums and packs consumed as unsigned, 64-bit products accumulated in narrower lanes, and the 16-bit sum lanes of the AVX2 variance family (closed-form capacity bound from the macro instantiation arguments).',
+    'text': 'Decides only the pairing that bit-exactness presupposes: each of the ~1600 installed kernels is an implementation of the operation (block size, bit depth, signature) of the slot it is installed in, and the slot\'s fallback is that operation\'s C reference. One arithmetic contradiction is decided kernel by kernel (a signed-saturating 8/16-bit sum consumed as unsigned). Beyond that, the arithmetic equality of kernel and reference over all arguments is NOT decided (that needs execution or symbolic equivalence, a different technique family). Three arithmetic hazards specific to SIMD are decided for every kernel: signed-saturating sums and packs consumed as unsigned, 64-bit products accumulated in narrower lanes, and the 16-bit sum lanes of the AVX2 variance family (closed-form capacity bound from the macro instantiation arguments). A fourth: a kernel declared to return a 64-bit sum does not end in a signed 32-bit reduction.',
     'note': 'function and pointer names are the repository\'s declared interface for kernel shape (headers, tests and tables are generated from them); a difference is reported only when both sides carry a token of the same kind',
     'ref': 'DESIGN.md section 5 C07',
 }
